@@ -1,8 +1,9 @@
 (* Properties_C10.v — C10: each standard stream connected where the options say.  Theorems only:
    per-type constructor facts (which calls a redirect constructor makes, what it yields) and the
-   regenerated installation order.  That the child's descriptors 0/1/2 end up referring to the
-   requested objects is decided by the tie's exhaustive type-combination x layout families. *)
-From Verif Require Import Lib WorldSpec LibSpec LibSpec2.
+   regenerated installation order; and THE CHILD SIDE (C10_child_image_objects, proof in
+   ChildObj.v): descriptors 0/1/2 of the exec'd image refer to the objects of the chosen child
+   ends, for every inherited descriptor table. *)
+From Verif Require Import Lib Build WorldSpec WorldSpec2 LibSpec LibSpec2 ChildSpec ChildObj.
 From Coq Require Import Lia.
 Local Open Scope Z_scope.
 
@@ -71,6 +72,67 @@ Proof.
   apply post_ret. unfold REPROC_EINVAL. lia.
 Qed.
 Print Assumptions C10_parent_end_only_for_pipe.
+
+(* THE CHILD SIDE, for every descriptor table the child inherits (any entries, any flags, any
+   limit L >= 0) and whichever descriptors the three child ends are -- also 0, 1 or 2 themselves
+   in any permutation (parent started with closed standard streams, user handles), also one
+   descriptor for several streams: in any fault-free well-formed world, if the forked child
+   reaches a successful exec then for each stream i in 0..2 the image has descriptor i open and it
+   refers to the very object the child end chosen for stream i referred to at fork; exec mode
+   never returns to the caller.  Through the closing loop, the moving of low child ends
+   (F_DUPFD_CLOEXEC, whose result is a free slot by a pigeonhole argument), the dup2 /
+   close-on-exec loop and the exit handle.  Premise: the three child ends are open descriptors
+   other than the fork error pipe. *)
+Theorem C10_child_image_objects : forall L t fprd fpwr sprd spwr av pg env o (k : MW unit) w,
+  0 <= L ->
+  (forall i, 0 <= i <= 2 -> is_Some (t !! src_of o i) /\ src_of o i <> fprd /\ src_of o i <> fpwr) ->
+  stf L t w ->
+  match fork_child_part fprd fpwr [po_in o; po_out o; po_err o; sprd; spwr; po_exit o]
+                        (start_child_part sprd spwr (Some av) pg env o k) w with
+  | Ret _ _ => False
+  | Stop w' => forall im, pr_image (curp w') = Some im ->
+                 forall i, 0 <= i <= 2 ->
+                   exists d0 d, t !! src_of o i = Some d0 /\ In (i, d) (im_fds im) /\ f_obj d = f_obj d0
+  | Hang _ | Crash _ _ => True
+  end.
+Proof. exact child_image_objects. Qed.
+Print Assumptions C10_child_image_objects.
+
+(* F_DUPFD never lands on an occupied slot, whatever the table *)
+Theorem C10_dupfd_slot_free : forall (t : gmap Z fdent) i, t !! lowest_free_ge t i (size t) = None.
+Proof. exact dupfd_slot_free. Qed.
+Print Assumptions C10_dupfd_slot_free.
+
+(* non-vacuity: stdin and stdout of the child are wanted on the parent's descriptors 1 and 0
+   (swapped), stderr on 5; the premises hold and the run reaches exec with the objects swapped *)
+Definition C10_ex_ent (id : Z) (cx : bool) := {| f_obj := OExt id ARW; f_cloexec := cx; f_nonblock := false |}.
+Definition C10_ex_world : world :=
+  build_world 1000 0 7 [(0, C10_ex_ent 10 false); (1, C10_ex_ent 11 false); (5, C10_ex_ent 12 false);
+                        (6, C10_ex_ent 13 true); (8, C10_ex_ent 14 true); (9, C10_ex_ent 15 true)]
+              [] [] [47] [] 24 [([47], FDir); ([47; 116], FExec [])] [] [] [].
+Definition C10_ex_o : process_options :=
+  {| po_env_behavior := 0; po_env_extra := None; po_wd := None; po_in := 1; po_out := 0; po_err := 5; po_exit := 6 |}.
+Example C10_ex_child :
+  let w := C10_ex_world in
+  stf 24 (pr_fds (curp w)) w /\
+  (forall i, 0 <= i <= 2 -> is_Some (pr_fds (curp w) !! src_of C10_ex_o i) /\ src_of C10_ex_o i <> 8 /\ src_of C10_ex_o i <> 9) /\
+  match fork_child_part 8 9 [po_in C10_ex_o; po_out C10_ex_o; po_err C10_ex_o; 8; 9; po_exit C10_ex_o]
+          (start_child_part 8 9 (Some [[47; 116]]) (Some (0, [47; 116])) (Some (0, [])) C10_ex_o (ret tt)) w with
+  | Stop w' => match pr_image (curp w') with
+               | Some im => map (fun kv => (fst kv, f_obj (snd kv))) (im_fds im)
+               | None => [] end
+  | _ => []
+  end = [(0, OExt 11 ARW); (1, OExt 10 ARW); (2, OExt 12 ARW); (6, OExt 13 ARW)].
+Proof.
+  cbn zeta. split; [|split].
+  - eexists. split; [|repeat split; reflexivity].
+    split; [|split; reflexivity]. split.
+    + eexists. split; [apply lookup_singleton|]. split; reflexivity.
+    + intros k [x Hk]. cbn in Hk. apply lookup_singleton_Some in Hk. destruct Hk as [<- _]. cbn. lia.
+  - intros i Hi. assert (Hc : i = 0 \/ i = 1 \/ i = 2) by lia.
+    destruct Hc as [Hc|[Hc|Hc]]; subst i; (split; [vm_compute; eauto|split; vm_compute; discriminate]).
+  - vm_compute. reflexivity.
+Qed.
 
 Example C10_ex : open_flags REPROC_STREAM_IN = 524352 /\ open_flags REPROC_STREAM_ERR = 524353.
 Proof. split; reflexivity. Qed.
